@@ -80,6 +80,9 @@ let lex_ops (d : BinNums.coq_N list) (ops : string list) : string =
       | "ni" -> run (opt id_) BinLexer.lx_next_id
       | "pi" -> emit (opt id_ (BinLexer.lx_peek_id !l))
       | "pt" -> emit (opt show_tok (BinLexer.lx_peek_token !l))
+      (* >>> a_c08 *)
+      | "rem" -> emit ("REM:" ^ hex_of_bytes (BinLexer.lx_remainder !l))
+      (* <<< a_c08 *)
       | "s" -> run hex_of_bytes BinLexer.lx_read_string
       | "b" -> run (fun b -> if b then "1" else "0") BinLexer.lx_read_bool
       | "u32" -> run string_of_n BinLexer.lx_read_u32
@@ -152,3 +155,80 @@ let () =
   register "bl.rops" (function [h; cap; sch; ops] ->
       rdr_ops (BinReader.rdr_new (nat_of_int (int_of_string cap)) (parse_sched sch) (bytes_of_hex h)) (split_ops ops) | _ -> "BADCASE");
   register "bl.rsops" (function [h; ops] -> rdr_ops (BinReader.rdr_from_slice (bytes_of_hex h)) (split_ops ops) | _ -> "BADCASE")
+
+(* >>> a_c08 (wave 4): exhaustive id sweep, reader construction modes, bounded writer *)
+let all_ids () : string =
+  let notid = ref [] and lexid = ref 0 and wr = ref 0 and agree = ref 0 in
+  let pad = bytes_of_hex "01000000000000000000" in
+  for x = 0 to 65535 do
+    let xn = n_of_int x in
+    let isid = BinPrim.is_id xn in
+    if not isid then notid := string_of_int x :: !notid;
+    let le = [byte_tab.(x land 255); byte_tab.(x lsr 8)] in
+    let (o, l') = BinLexer.lx_read_token (BinLexer.lx_new (le @ pad)) in
+    let as_id = (match o with Bytes.Ok (BinPrim.BId y) -> int_of_n y = x | _ -> false) && int_of_nat (BinLexer.lx_position l') = 2 in
+    if as_id then incr lexid;
+    if as_id = isid then incr agree;
+    if BinPrim.write_token (BinPrim.BId xn) = le then incr wr
+  done;
+  Printf.sprintf "notid:%s|lexid:%d|wr:%d|agree:%d" (S.concat "," (L.rev !notid)) !lexid !wr !agree
+
+let rec take n l = if n <= 0 then [] else match l with [] -> [] | x :: r -> x :: take (n - 1) r
+
+let write_limited (toks : BinPrim.btoken list) (lim : int) : string =
+  let rec go toks n_ok acc used =
+    match toks with
+    | [] -> Printf.sprintf "OK:%d:%s" n_ok (hex_of_bytes (L.concat (L.rev acc)))
+    | t :: r ->
+      let b = BinPrim.write_token t in
+      let k = L.length b in
+      if used + k <= lim then go r (n_ok + 1) (b :: acc) (used + k)
+      else Printf.sprintf "ERR:%d:%s" n_ok (hex_of_bytes (L.concat (L.rev (take (lim - used) b :: acc))))
+  in
+  go toks 0 [] 0
+
+let () =
+  register "bl.allids" (function [] -> all_ids () | _ -> "BADCASE");
+  register "bl.mk" (function [mode; h; cap; sch; _h2; _n2] ->
+      let c = if mode = "new" then 32768 else int_of_string cap in
+      show_run (BinReader.run_stream (nat_of_int c) (parse_sched sch) (bytes_of_hex h)) ^ Printf.sprintf " buf=%d inner=1" c
+    | _ -> "BADCASE");
+  register "bl.writelim" (function [ts; lim] ->
+      let toks = if ts = "-" then [] else L.map parse_tok (S.split_on_char ' ' ts) in
+      write_limited toks (int_of_string lim) | _ -> "BADCASE")
+(* <<< a_c08 *)
+
+(* >>> a_c08 (wave 4): call mixes through the extracted BinOps.reader_ops / lexer_ops *)
+let parse_bop (s : string) : BinOps.bop =
+  match s with
+  | "n" -> BinOps.OpNext
+  | "r" | "t" -> BinOps.OpRead
+  | _ when starts_with "by" s -> BinOps.OpBytes (nat_of_int (int_of_string (after "by" s)))
+  | _ -> failwith "bad op"
+
+let show_bres (r : BinOps.bres) : string =
+  let opt pr = function None -> "NONE" | Some x -> pr x in
+  match r with
+  | BinOps.RNext o -> show_o (opt show_tok) o
+  | BinOps.RRead o -> show_o show_tok o
+  | BinOps.RBytes o -> show_o hex_of_bytes o
+
+let show_opsrun (l : (BinOps.bres * Datatypes.nat) list) : string =
+  if l = [] then "-" else S.concat " " (L.map (fun (r, p) -> show_bres r ^ "@" ^ string_of_int (int_of_nat p)) l)
+
+let () =
+  register "bl.mrops" (function [h; cap; sch; ops] ->
+      show_opsrun (BinOps.reader_ops (nat_of_int (int_of_string cap)) (parse_sched sch) (bytes_of_hex h) (L.map parse_bop (split_ops ops)))
+    | _ -> "BADCASE");
+  register "bl.mlops" (function [h; ops] ->
+      show_opsrun (BinOps.lexer_ops (bytes_of_hex h) (L.map parse_bop (split_ops ops))) | _ -> "BADCASE")
+(* <<< a_c08 *)
+
+(* >>> a_c08: error accessors (class only; offsets/messages are not canonical) *)
+let () =
+  register "bl.errapi" (function [h] ->
+      let (_, (e, _)) = BinLexer.run_lexer (bytes_of_hex h) in
+      let x = (match e with Bytes.Ok () -> "END" | Bytes.Err c -> "ERR:" ^ string_of_n c ^ ":1" | _ -> crash_tag) in
+      x ^ " " ^ x
+    | _ -> "BADCASE")
+(* <<< a_c08 *)
